@@ -30,7 +30,8 @@ DEVS = {
 def mc(rep, tier, facets):
     for f in facets:
         cfg = f"MC_Heap_{f}_{tier}.cfg"
-        r = engine.run_tlc("MC_Heap", cfg, coverage=(tier == "quick" and f != "tables"), timeout=2400)
+        r = engine.run_tlc("MC_Heap", cfg, coverage=(tier == "quick" and f == "names"), timeout=2400,
+                           workers=8 if tier == "quick" else 16)
         rep.add_mc(r, f"SerifHeap facet {f}: all histories within the bound; invariants + action properties")
         never = [a for a, (d, t) in r.coverage.items() if t == 0 and a not in ("Init",)]
         if r.coverage:
@@ -48,7 +49,7 @@ def gen(rep, tier, facet, clauses):
     cfg = open(os.path.join(engine.SPEC, cfgfile)).read().replace("Emit = FALSE", "Emit = TRUE")
     cfg = re.sub(r"MaxDepth = \d+", f"MaxDepth = {depth}", cfg)
     cfg = "\n".join(l for l in cfg.splitlines() if not l.startswith(("INVARIANT", "PROPERTY"))) + "\nACTION_CONSTRAINT EmitT\n"
-    r = engine.run_tlc("MC_Heap", cfg, timeout=2400)
+    r = engine.run_tlc("MC_Heap", cfg, timeout=2400, workers=8)
     rep.add_mc(r, f"Gen: SerifHeap facet {facet}, every transition with path length < {depth}")
     sc = engine.scratch()
     cp, op = os.path.join(sc, f"heap_{facet}.ndjson"), os.path.join(sc, f"heap_{facet}_out.json")
